@@ -3263,7 +3263,10 @@ class ISLaEmitter(IslaLanguageListener.IslaLanguageListener):
         assert len(nonterminal) > 2
 
         fresh_var = fresh_bound_variable(
-            self.used_variables | self.vars_for_free_nonterminals,
+            self.used_variables
+            | {var.name for var in self.vars_for_free_nonterminals.values()}
+            | {var.name for var in self.vars_for_xpath_expressions.values()}
+            | {self.constant.name},
             BoundVariable(nonterminal[1:-1], nonterminal),
             add=False,
         )
